@@ -217,6 +217,19 @@ CLAIMED = {
         note="Trusted: TLC; the MRO table of the fixed class family in Adaptation.tla matches the generated Python "
              "classes; factories' success depends only on their position in the chain.",
         design="4/C17"),
+    "C18": dict(
+        level="other",
+        technique="TLA+ specification for what the family can state (CTraitTables.tla: handler-table searches stay in "
+                  "bounds and getstate/setstate round-trip - model-checked by TLC, reproducing finding F3 on the unrepaired "
+                  "table, bound to the real CTrait API; RefLedger.tla: steady-state reference ledger of 31 operations, "
+                  "measured with sys.getrefcount and judged by TLC) plus sanitised replay: the specification-driven history "
+                  "generators of the other properties executed against an ASan+UBSan build of /repo's ctraits.c",
+        text="Memory safety itself is not decidable by a TLA+ model: the specifications act as program generator and "
+             "ledger, AddressSanitizer/UBSan as the monitor. Crash-prone phases run in forked children / a subprocess so "
+             "that a crash is reported as a violation.",
+        note="Trusted: clang ASan/UBSan on the extension only (CPython itself uninstrumented, PYTHONMALLOC=malloc); "
+             "refcount deltas are steady-state (K=12 fresh values per loop); other threads not exercised.",
+        design="4/C18"),
     "C19": dict(
         technique=TLA + "every operation of Faults.tla takes a fault parameter (callback site, occurrence, exception "
                   "class); FaultsMC lets TLC decide the two laws (deciding callback => no effect + exception; change "
